@@ -174,7 +174,7 @@ def judge(sh: Shard, mw, label, suspend, regime, exited):
 def gen_script(r, tier):
     from vlib.man import Phase
 
-    kind = r.choice(["plain", "plain", "outage", "rferr", "lossy-handshake", "absent", "wrong-id", "resets", "resets", "endpoint-raise", "long"])
+    kind = r.choice(["plain", "plain", "outage", "rferr", "lossy-handshake", "absent", "wrong-id", "resets", "resets", "endpoint-raise", "long", "handler-raise", "handler-raise"])
     phases, actions = [], []
     ident = None
     ep_fault = None
@@ -196,6 +196,10 @@ def gen_script(r, tier):
         n = r.choice([1, 2, 4])
         for _ in range(n):
             actions.append((r.choice([r.uniform(0, 6), r.uniform(0, phases[0].dur)]), r.choice(["reset", "reset", "set-info"])))
+    elif kind == "handler-raise":
+        phases = [Phase("healthy", r.choice([40, 120]))]
+        if r.random() < 0.4:
+            actions.append((r.uniform(8, 30), "reset"))
     elif kind == "endpoint-raise":
         phases = [Phase("healthy", 15)]
         ep_fault = r.choice([0, 1, 2])
@@ -220,6 +224,12 @@ def scenario(sh: Shard, seed, idx, tier):
     # snapshots with a pump running put the library in its "active" timing table
     snapshot = r.choice(["default.snapshot", "inYT-Pump1Hi-2020-12-13 11_19_35.snapshot", "inXM-Pump 1 running-2020-12-08 19_54_01.snapshot", "inYT-all off-2020-10-23 18_00_45.snapshot"])
     mw = ManWorld(r, regime, suspend=suspend, snapshot=snapshot, **kw)
+    if kind == "handler-raise":
+        # the client's handler fails on events delivered inside a locate / connect phase
+        pool = ["LOCATING_STARTED", "LOCATING_DISCOVERED_SPA", "LOCATING_FINISHED", "CONNECTION_STARTED", "CONNECTION_GOT_FIRMWARE_VERSION", "CONNECTION_GOT_CHANNEL", "CONNECTION_GOT_CONFIG_FILES", "CONNECTION_INITIAL_DATA_BLOCK_REQUEST", "CONNECTION_SPA_COMPLETE", "CONNECTION_FINISHED"]
+        mw.raise_events = set(r.sample(pool, r.choice([1, 1, 2, 3])))
+        mw.raises_left = r.choice([1, 2, 3])
+        sh.see("handler_raise_events", tuple(sorted(mw.raise_events)))
     exited = {"v": False}
     try:
         Man = make_manager_class()
@@ -267,6 +277,7 @@ def scenario(sh: Shard, seed, idx, tier):
         sh.evaluations += 1
         judge(sh, mw, label, suspend, regime, exited["v"])
         sh.see("script_kinds", kind)
+        sh.count("client_handler_failures", sum(1 for e in mw.events if e.get("raised")))
         sh.see("snapshots", snapshot[:24])
         sh.see("suspend_modes", suspend)
         sh.nontrivial(label + f":{len(mw.events)}")
@@ -302,6 +313,7 @@ def main(tier, seed):
     run.need(run.counters.get("phases_that_raised", 0) > 0, "no locate/connect phase raised")
     run.extra["distinct_state_event_pairs"] = len(pairs)
     run.extra["distinct_abstract_states"] = len(run.sets.get("abstract_states", set()))
+    run.need(run.counters.get("client_handler_failures", 0) >= 5, "too few client handler failures inside locate/connect phases were injected")
     return run.finish(
         rule="scenarios of the real manager against the real simulator: plain connects, outages while connected, RF-error periods, lossy handshakes (retry exhaustion), absent spa, wrong identifier, user resets / set-spa-info at drawn instants (incl. mid-handshake), endpoint creation raising, long mixed scripts; client handlers that never suspend / suspend one tick / seconds / mixed; regimes B/J/H; one evaluation = one scenario trace judged by I1-I7; distinct = distinct scenario traces; coverage of (state,event) pairs and abstract states is reported",
         assumptions=["I7 (transition table) is judged only on runs whose client handlers never suspend", "an open locate/connect bracket at context exit (cancellation) is counted, not flagged"],
